@@ -8,6 +8,10 @@
      silent_ops_invisible                                              (the main theorem, about model_run)
      hash_invisible (C03), rebase_invisible (C07), intra_is_flush (C09) (instances)
      invisible_u64                                                      (closed non-vacuity example)
+   Side condition of the run-level theorems: `Forall (fun o => det_op o = true)`, i.e. (Refine.det_op) no `==`,
+   and SSZ decoding only of inputs below 4 GiB. Histories that decode ARE covered: the specification of
+   OSszList/OSszVec is strict and complete, hence a function of the abstract state and the input
+   (Refine.spec_det); det_op_decode, hash_invisible_decode (an instance with a decoded handle).
    Proof file; no model code. *)
 From Coq Require Import FMapPositive.
 From MH Require Import Inv IfaceP IterP IntraP WulP RepeatP CollCtorP CollObsP HashP CodecP SysInv RefineBase RefineA RefineB
@@ -83,6 +87,10 @@ Section Norm.
   Proof.
     intros F. apply Forall_app in F. destruct F as [Fl Fk]. apply Forall_app. split; [apply Forall_filter; exact Fl|exact Fk].
   Qed.
+
+  (* decoding an input below 4 GiB satisfies the side condition of the theorems below *)
+  Lemma det_op_decode d (b : bytes) : lenN b < 2 ^ 32 -> det_op (OSszList d b : op) = true /\ det_op (OSszVec d b : op) = true.
+  Proof. intros Hlt. cbn [det_op]. split; apply N.ltb_lt; exact Hlt. Qed.
 
   (* determinism of the specification survives normalisation *)
   Lemma norm_det os : Forall (fun o : op => det_op o = true) os -> Forall (fun o : op => det_op o = true) (norm os).
@@ -238,6 +246,20 @@ Section Invisible.
     apply Forall_filter_app. exact Hok.
   Qed.
 
+  (* an instance with a decoded handle: whether or not the root of a freshly decoded list is computed, its
+     re-encoding and everything later are answered identically *)
+  Corollary hash_invisible_decode d (b : bytes) k : valid_bytes b = true -> lenN b < 2 ^ 32 ->
+    Forall op_ok k -> Forall (fun o => det_op o = true) k ->
+    same_behaviour [OSszList d b; OHash d; OSszEnc d] [OSszList d b; OSszEnc d] k.
+  Proof.
+    intros Hb Hlt Hok Hd.
+    apply (hash_invisible [OSszList d b; OHash d; OSszEnc d] k).
+    - apply Forall_app. split; [|exact Hok].
+      repeat constructor; try exact Hb; exact I.
+    - apply Forall_app. split; [|exact Hd].
+      constructor; [apply (@det_op_decode T d b Hlt)|]. repeat constructor.
+  Qed.
+
   (* C07: all other and all later operations behave as if no rebase had happened *)
   Corollary rebase_invisible os k :
     Forall op_ok (os ++ k) -> Forall (fun o => det_op o = true) (os ++ k) ->
@@ -318,6 +340,8 @@ Print Assumptions norm_det.
 Print Assumptions silent_ops_invisible_spec.
 Print Assumptions silent_ops_invisible.
 Print Assumptions hash_invisible.
+Print Assumptions det_op_decode.
+Print Assumptions hash_invisible_decode.
 Print Assumptions rebase_invisible.
 Print Assumptions intra_is_flush.
 Print Assumptions invisible_u64.
